@@ -100,7 +100,7 @@ def run(tier, seed):
                 tests_by_name[o["name"]].append(bytes(wowm.parse_int(x) & 0xFF for x in o["bytes"]))
             except Exception:
                 pass
-    n_pages = n_rows = n_rows_ok = n_ex = n_ex_ok = n_groups_model = n_groups_model_ok = n_ex_compressed = 0
+    n_pages = n_rows = n_rows_ok = n_ex = n_ex_ok = n_groups_model = n_groups_model_ok = n_ex_compressed = n_ex_compressed_ok = 0
     treq, tmeta = [], []
     for sec in docs.doc_pages():
         n_pages += 1
@@ -137,7 +137,34 @@ def run(tier, seed):
         compressed = any(k == "compressed" for k, _ in src["tags"]) or any(m["k"] == "field" and any(k == "compressed" for k, _ in m["tags"]) for m in src["members"])
         for k, groups in enumerate(sec["examples"]):
             if compressed:
-                n_ex_compressed += 1      # the annotator shows the DEcompressed payload: not comparable byte for byte with the test vector
+                # message-level compression: the example shows the test vector's bytes as they are; member-level compression: the bytes
+                # before the compressed member as they are, then the DEcompressed payload.  No cut against the model (zlib is outside it).
+                n_ex_compressed += 1
+                import zlib
+                allb = bytes(b for g, _ in groups for b in g)
+                okz = allb in vecs
+                for v in vecs:
+                    if okz:
+                        break
+                    for kz in range(len(v) + 1):
+                        if allb[:kz] != v[:kz]:
+                            break
+                        rest = v[kz:]
+                        if rest == b"" and allb[kz:] == b"":
+                            okz = True
+                            break
+                        if rest[:1] == b"\x78":
+                            try:
+                                if zlib.decompress(rest) == allb[kz:]:
+                                    okz = True
+                                    break
+                            except zlib.error:
+                                pass
+                if okz:
+                    n_ex_compressed_ok += 1
+                else:
+                    rep.violation(f"C18/example/{sec['page']}/{src['name']}/{k + 1}", f"{where} example {k + 1} (compressed): the annotated byte groups ({len(allb)} bytes) are neither a test vector of {src['name']} nor its prefix followed by the decompressed payload",
+                                  {"artefact": where, "example": k + 1, "bytes": allb.hex(), "test_vectors": [v.hex() for v in vecs][:6]})
                 continue
             n_ex += 1
             allb = bytes(b for g, _ in groups for b in g)
@@ -207,7 +234,7 @@ def run(tier, seed):
         "checker_cmd": "cd /verif/lean && lake build WowVerif.Thm.C18 && lake env lean WowVerif/Thm/C18.lean; python3 /verif/tools/docs.py",
         "trusted_base": TRUSTED_BASE_COMMON + ["tools/wowm.py (independent wowm front end) and tools/docs.py (markdown / doc comment scraping)", "structural equality of the parsed definitions is evaluated in python"],
         "theorems": po["theorems"], "rust_doc_comments": n_rust, "page_sections": n_pages, "definitions_compared": n_obl, "definitions_equal": n_ok,
-        "body_tables": n_rows, "body_tables_ok": n_rows_ok, "examples": n_ex, "examples_of_compressed_messages_skipped": n_ex_compressed, "examples_equal_to_a_test_vector": n_ex_ok, "stale_pages": len(stale), "examples_cut_by_model": n_groups_model, "examples_groups_equal": n_groups_model_ok,
+        "body_tables": n_rows, "body_tables_ok": n_rows_ok, "examples": n_ex, "examples_of_compressed_messages": n_ex_compressed, "examples_of_compressed_messages_equal_to_test_vector_or_its_decompression": n_ex_compressed_ok, "examples_equal_to_a_test_vector": n_ex_ok, "stale_pages": len(stale), "examples_cut_by_model": n_groups_model, "examples_groups_equal": n_groups_model_ok,
         "source_objects_documented": len(covered), "generated_objects_without_documentation": len(undocumented), "undocumented_sample": undocumented[:6],
         "evaluations": n_obl + n_rows + n_ex, "distinct_nontrivial": n_obl,
         "rule": "every ```text block of every generated .rs file and every `Wowm Representation` block of every documentation page; every body table; every example",
